@@ -40,8 +40,19 @@ func domDepth(b *ssa.BasicBlock) int {
 func (f *frame) lookupName(name string, at *ssa.BasicBlock, st *State) (SV, bool) {
 	best := -1
 	var bv namedVal
+	// a variable that lives in memory (address-taken local) is always read from its cell: a value
+	// recorded at its declaration would be stale after a write through the address
+	hasAddr := false
+	for _, nv := range namedStore[f] {
+		if nv.name == name && nv.isAddr && (nv.block == at || nv.block.Dominates(at)) {
+			hasAddr = true
+		}
+	}
 	for _, nv := range namedStore[f] {
 		if nv.name != name {
+			continue
+		}
+		if hasAddr && !nv.isAddr {
 			continue
 		}
 		if nv.block != at && !nv.block.Dominates(at) {
@@ -90,9 +101,18 @@ func (f *frame) specEnv(st *State, at *ssa.BasicBlock, overrides map[string]SV) 
 				continue
 			}
 			seen[nv.name] = true
-			if sv, ok := f.lookupName(nv.name, at, st); ok {
-				env.Vars[nv.name] = sv
-			}
+			func() {
+				defer func() {
+					if r := recover(); r != nil {
+						if _, ok := r.(ErrSubset); !ok {
+							panic(r)
+						}
+					}
+				}() // a local the model cannot represent is simply not nameable in clauses
+				if sv, ok := f.lookupName(nv.name, at, st); ok {
+					env.Vars[nv.name] = sv
+				}
+			}()
 		}
 	}
 	for k, v := range overrides {
@@ -210,6 +230,10 @@ func (f *frame) enterLoop(li *loopInfo, in *State) *State {
 		f.vals[phi] = v
 		li.hdrVals[phi] = v
 		c.assume(hs, c.wellFormed(n, phi.Type(), hs.next))
+		if phi.Comment == "rangeindex" && isRangeIndexPhi(phi) {
+			// go/ssa lowers "for i := range s" to idx = phi(-1, idx+1): idx >= -1 at every visit of the header
+			c.assume(hs, fmt.Sprintf("(>= %s (- 1))", n))
+		}
 		if phi.Comment != "" {
 			f.recordName(phi.Comment, v, false, nil, b)
 		}
@@ -251,6 +275,25 @@ func (f *frame) backEdge(li *loopInfo, from *ssa.BasicBlock, es *State) {
 		m := f.evalClause(*li.spec.Decreases, env)
 		c.oblige(es, lp, "decreases", fmt.Sprintf("(and (>= %s 0) (< %s %s))", li.measure0, m, li.measure0), li.spec.Decreases.Text, firstPos(li.header))
 	}
+}
+
+// isRangeIndexPhi checks the shape go/ssa gives the hidden index of a range loop: phi(-1, phi+1).
+func isRangeIndexPhi(phi *ssa.Phi) bool {
+	okInit, okStep := false, false
+	for _, e := range phi.Edges {
+		if k, ok := e.(*ssa.Const); ok && k.Value != nil && k.Value.ExactString() == "-1" {
+			okInit = true
+			continue
+		}
+		if b, ok := e.(*ssa.BinOp); ok && b.Op == token.ADD && b.X == ssa.Value(phi) {
+			if k, ok := b.Y.(*ssa.Const); ok && k.Value != nil && k.Value.ExactString() == "1" {
+				okStep = true
+				continue
+			}
+		}
+		return false // some other incoming value: not the shape we rely on
+	}
+	return okInit && okStep
 }
 
 func firstPos(b *ssa.BasicBlock) token.Pos {
@@ -331,7 +374,7 @@ func (f *frame) execInstr(b *ssa.BasicBlock, instr ssa.Instruction, st *State) {
 			f.zeroInitObj(st, ref, et)
 			f.setVal(in, f.mkVal(ref, in.Type()))
 		}
-		if in.Comment != "" && in.Comment != "complit" && in.Comment != "varargs" && in.Comment != "slicelit" {
+		if in.Comment != "" && in.Comment != "complit" && in.Comment != "varargs" && in.Comment != "slicelit" && in.Comment != "makeslice" && in.Comment != "new" {
 			f.recordName(in.Comment, f.vals[in], true, et, b)
 		}
 	case *ssa.Store:
